@@ -613,6 +613,35 @@ func registerFSWorld(e *Engine) {
 	e.Intr["(*os.File).Write"] = func(c *Call) []*State { return fileWrite(c, e.bytesTerm(c.St, c.Args[1])) }
 	e.Intr["(*os.File).WriteString"] = func(c *Call) []*State { return fileWrite(c, c.argTerm(1)) }
 	e.Intr["(*os.File).Sync"] = func(c *Call) []*State { return c.Return(Iface{}) }
+	// ReadAt(b, off): len(b) bytes of the current content at off; io.EOF when the range passes the end
+	e.Intr["(*os.File).ReadAt"] = func(c *Call) []*State {
+		_, h, ok := handleOf(c.St, c.Args[0])
+		if !ok {
+			return c.Panic("nil-deref", "ReadAt on nil *os.File")
+		}
+		b := c.Args[1].(Slice)
+		off := BVToInt(c.argTerm(2))
+		data := StrConcat(c.St.fs().Files[h.File].Data...)
+		inRange := And(intCmp(">=", off, IntC(0)), intCmp("<=", intArith("+", off, IntC(int64(b.Len))), StrLenInt(data)))
+		eof := e.fsError(c.St, "eof", "EOF")
+		return c.Outcomes(c.sol2(), []Outcome{
+			{Cond: inRange, Ret: Tuple{BVC(uint64(b.Len), 64), Iface{}}, Eff: func(st *State) {
+				d := StrConcat(st.fs().Files[h.File].Data...)
+				for i := 0; i < b.Len; i++ {
+					ch := StrAt(d, intArith("+", off, IntC(int64(i))))
+					st.Store(Ptr{Obj: b.Obj, Path: []int{b.Off + i}}, IntToBV(StrToCode(ch), 8))
+				}
+			}},
+			{Cond: Not(inRange), Ret: Tuple{BVC(0, 64), eof}},
+		})
+	}
+	e.Intr["(*os.File).Stat"] = func(c *Call) []*State {
+		_, h, ok := handleOf(c.St, c.Args[0])
+		if !ok {
+			return c.Panic("nil-deref", "Stat on nil *os.File")
+		}
+		return c.Return(Tuple{e.newFileInfo(c.St, h.File), Iface{}})
+	}
 	e.Intr["(*os.File).Name"] = func(c *Call) []*State {
 		_, h, ok := handleOf(c.St, c.Args[0])
 		if !ok {
